@@ -19,6 +19,13 @@ CHECKS = {
             "u8 Display/FromStr inverse (std); core::fmt template encoding of the pinned nightly", "3 C20"),
 }
 
+CHECKS["C06"] = ("other", "E3 MIR call-graph reachability + panic/abort inventory with discharge classes R (intervals, constants, dominating comparisons), G (layout gate consistency), I (frozen invariant table); recursion depth, loop termination classes, error-propagation and no-blocking rules",
+                 "Every panic-capable site, call-graph cycle, loop and io::Result in the reader's reachable set is enumerated and must be discharged by a checked rule; covers all byte strings and option combinations at once. Structural: external callees are trusted not to panic outside the listed contracts.",
+                 "byteorder/arrow2/encoding_rs/serde_json callees outside the panic-by-contract table do not panic; the caller's Read/Seek impl does not panic; allocation failure is out of scope", "3 C06")
+CHECKS["C14"] = ("other", "E2 schema gate trees vs gen/resources/frames.json per version class; positional import/export agreement (L4); non-empty struct rule (L5)",
+                 "Schema half is proof-shaped (every struct x version class compared with the field table); values/validity/import decided structurally by positional agreement. Reported as `other`; known finding F1 (field-less End struct for 3.0-3.6) is outstanding.",
+                 "arrow2 StructArray::new/into_data order and length semantics; frames.json is the table the statement names", "3 C14")
+
 PENDING = {}
 
 NOT_APPLICABLE = {
